@@ -34,6 +34,26 @@ pub fn emit_from_view(out: &mut Out, c: u64, r: u64, win: (u64, u64, u64, u64), 
     out.end(&obs);
 }
 
+/// sub 4: From<view> / From<view_mut> over drop-tracked elements whose k-th Clone panics
+/// (C11): outcome, elements dropped twice, elements leaked
+pub fn emit_from_view_fuse(out: &mut Out, prop: u32, c: u64, r: u64, win: (u64, u64, u64, u64), mutable: bool, k: u64) {
+    let inp = vec![DBG as u64, 4, c, r, win.0, win.1, win.2, win.3, mutable as u64, k];
+    if out.want_sample() { out.sample(&format!("C11 TooDee::from(view{} {:?} of {}x{}), Clone panics at call {}", if mutable { "_mut" } else { "" }, win, c, r, k)); }
+    out.begin(prop, 9, &inp);
+    ledger_reset();
+    let mut t: TooDee<Tracked> = TooDee::from_vec(c as usize, r as usize, (0..(c * r) as u32).map(Tracked::new).collect());
+    let (s, e) = ((win.0 as usize, win.1 as usize), (win.2 as usize, win.3 as usize));
+    LEDGER.with(|l| l.borrow_mut().clone_panic_in = Some(k));
+    let ok = catch_unwind(AssertUnwindSafe(|| {
+        let o: TooDee<Tracked> = if mutable { TooDee::from(t.view_mut(s, e)) } else { TooDee::from(t.view(s, e)) };
+        drop(o);
+    })).is_ok();
+    LEDGER.with(|l| l.borrow_mut().clone_panic_in = None);
+    let obs = vec![ok as u64, ledger_double(), ledger_live().saturating_sub(t.data().len() as u64)];
+    out.end(&obs);
+    drop(t);
+}
+
 /// sub 1: equality and hashing of two arrays; `diff` = 0: same cells, k+1: cell k differs
 pub fn emit_eq(out: &mut Out, c1: u64, r1: u64, c2: u64, r2: u64, diff: u64) {
     let inp = vec![DBG as u64, 1, c1, r1, c2, r2, diff];
@@ -109,16 +129,30 @@ pub fn emit_ctor<T: Elem>(out: &mut Out, via: u64, c: u64, r: u64, len: u64) {
     out.end(&obs);
 }
 
-pub fn replay(out: &mut Out, inp: &[u64]) {
+pub fn replay(out: &mut Out, prop: u32, inp: &[u64]) {
     match inp[1] {
         0 => emit_from_view(out, inp[2], inp[3], (inp[4], inp[5], inp[6], inp[7]), inp[8] != 0),
         1 => emit_eq(out, inp[2], inp[3], inp[4], inp[5], inp[6]),
         3 => emit_eq_float(out, inp[2], inp[3], inp[4]),
+        4 => emit_from_view_fuse(out, prop, inp[2], inp[3], (inp[4], inp[5], inp[6], inp[7]), inp[8] != 0, inp[9]),
         _ => if inp[6] != 0 { emit_ctor::<Tracked>(out, inp[2], inp[3], inp[4], inp[5]) } else { emit_ctor::<u32>(out, inp[2], inp[3], inp[4], inp[5]) },
     }
 }
 
 const BIG: [u64; 4] = [u64::MAX, u64::MAX / 2 + 1, 1 << 32, 1 << 63];
+
+/// C11: From<view> with the k-th Clone panicking, every window of small parents, every k
+pub fn gen_c11_from_view(out: &mut Out, prop: u32, tier: &str) {
+    let pmax = if tier == "quick" { 3 } else { 4 };
+    for c in 0..=pmax { for r in 0..=pmax {
+        if (c == 0) != (r == 0) { continue; }
+        for s0 in 0..=c { for e0 in s0..=c + 1 { for s1 in 0..=r { for e1 in s1..=r + 1 {
+            let area = if e0 <= c && e1 <= r { (e0 - s0) * (e1 - s1) } else { 0 };
+            let ks: Vec<u64> = if prop == 11 { (0..area).collect() } else { vec![area, area + 1] };
+            for k in ks { for m in [false, true] { emit_from_view_fuse(out, prop, c, r, (s0, s1, e0, e1), m, k); } }
+        } } } }
+    } }
+}
 
 pub fn gen_c20(out: &mut Out, tier: &str, rng: &mut Rng) {
     let small = if tier == "quick" { 4 } else { 6 };
